@@ -10,6 +10,7 @@ from sim.core import Violation
 ID = "C17"
 SHRINK_LISTS = ("ops",)
 SHRINK_MIN = {"nints": 1, "nbands": 1, "nbins": 2, "nchans_per_band": 1}
+SHRINK_SIMPLE = {"layout": "C"}
 
 
 def warm() -> None:
@@ -38,6 +39,7 @@ def generate(rng, tier) -> dict:
             v = round(fold_dm + rng.uniform(-5, 20), 3) if kind == "dm" else fold_p * (1 + round(rng.uniform(-1e-3, 1e-3), 7))
         ops.append({"k": kind, "v": v})
     return {"nints": nints, "nbands": nbands, "nbins": nbins, "nchans_per_band": rng.choice([1, 2, 4]),
+            "layout": rng.choice(["C", "C", "C", "T", "F", "slice"]),
             "fold_dm": fold_dm, "fold_period": fold_p, "ops": ops}
 
 
@@ -52,7 +54,9 @@ def nontrivial(sc, ctx) -> bool:
     return len(sc["ops"]) >= 2 and ctx.probes.get("nonzero-rotation", 0) > 0
 
 
-def make_cube(sc, ctx):
+def make_cube(sc, ctx, layout="C"):
+    """A cube with all-distinct values.  `layout` chooses how the SAME logical array sits in memory:
+    C-contiguous, a transposed view of a band-major array, Fortran order, or a slice of a larger cube."""
     from sigpyproc.foldedcube import FoldedData
 
     from .c04 import base_header
@@ -60,8 +64,19 @@ def make_cube(sc, ctx):
     nchans = sc["nbands"] * sc["nchans_per_band"]
     hdr = base_header(ctx, 1).new_header({"nchans": nchans, "fch1": 400.0, "foff": -80.0 / nchans, "tsamp": 0.001,
                                           "nsamples": 100000, "nbits": 32})
-    data = np.arange(sc["nints"] * sc["nbands"] * sc["nbins"], dtype=np.float32).reshape(sc["nints"], sc["nbands"], sc["nbins"])
-    return FoldedData(data.copy(), hdr, sc["fold_period"], sc["fold_dm"], 0), data
+    ni, nb, nbin = sc["nints"], sc["nbands"], sc["nbins"]
+    data = np.arange(ni * nb * nbin, dtype=np.float32).reshape(ni, nb, nbin)
+    if layout == "T":
+        arr = np.ascontiguousarray(data.transpose(1, 0, 2)).transpose(1, 0, 2)
+    elif layout == "F":
+        arr = np.asfortranarray(data)
+    elif layout == "slice":
+        big = np.full((ni, nb + 2, nbin), -1, dtype=np.float32)
+        big[:, 1 : 1 + nb] = data
+        arr = big[:, 1 : 1 + nb]
+    else:
+        arr = data.copy()
+    return FoldedData(arr, hdr, sc["fold_period"], sc["fold_dm"], 0), data
 
 
 def rotations(cur, orig):
@@ -78,13 +93,17 @@ def rotations(cur, orig):
 
 
 def execute(sc, ctx) -> None:
-    cube, orig = make_cube(sc, ctx)
+    layout = sc.get("layout", "C")
+    cube, orig = make_cube(sc, ctx, layout)
+    twin, _ = make_cube(sc, ctx, "C")  # same values, C-contiguous, same history: the memory layout must not matter
+    if layout != "C":
+        ctx.probe("non-contiguous-cube")
     kinds = {o["k"] for o in sc["ops"]}
     single = len(kinds) == 1
     ctx.probe("dm-only" if kinds == {"dm"} else "period-only" if kinds == {"period"} else "mixed-dm-period")
     if len(sc["ops"]) >= 4:
         ctx.probe("history>=4")
-    ctx.sig += [",".join(sorted(kinds)), f"len{min(len(sc['ops']), 5)}"]
+    ctx.sig += [",".join(sorted(kinds)), f"len{min(len(sc['ops']), 5)}", layout]
     cur = {"dm": sc["fold_dm"], "period": sc["fold_period"]}
     prev_op = None
     for i, op in enumerate(sc["ops"]):
@@ -98,10 +117,14 @@ def execute(sc, ctx) -> None:
         try:
             if op["k"] == "dm":
                 cube.update_dm(op["v"])
+                twin.update_dm(op["v"])
             else:
                 cube.update_period(op["v"])
+                twin.update_period(op["v"])
         except Exception as e:  # noqa: BLE001
             raise mk("raised", repr(e)) from None
+        if not np.array_equal(np.asarray(cube.data), np.asarray(twin.data)):
+            raise mk("memory-layout-dependent", f"a cube held as a {layout!r} view differs from a C-contiguous cube with the same values after the same history")
         cur[op["k"]] = op["v"]
         if cube.dm != cur["dm"] or cube.period != cur["period"]:
             raise mk("reported-values", f"dm={cube.dm} period={cube.period}, last set {cur}")
